@@ -8,7 +8,7 @@ import vlib
 
 PROOFS = ["MgProof.C13.Lemmas", "MgProof.C13.LemmasTrace", "MgProof.C13.LemmasPoll", "MgProof.C13.LemmasSelect",
           "MgProof.C13.LemmasEpoll", "MgProof.C13.LemmasReady", "MgProof.C13.LemmasEpollReady",
-          "MgProof.C13.Props"]
+          "MgProof.C13.LemmasSelectFd", "MgProof.C13.LemmasAgree", "MgProof.C13.Props"]
 GREP = ["MgModel/C13", "MgProof/C13", "Drv/C13.lean"]
 REPO_SRCS = ["muggle/c/event/event_loop.c", "muggle/c/event/internal/event_loop_epoll.c",
              "muggle/c/event/internal/event_loop_poll.c",
@@ -50,11 +50,15 @@ def tail(tag):
     return ["run %s" % b for b in BACKENDS] + ["agree %s" % tag]
 
 
-LEGACY = " L" if os.environ.get("VERIF_C13_LEGACY") else ""   # development knob: model the unfixed poll
+# development knobs: model the trees without fixes/C13-poll-ready-count.patch (L) /
+# fixes/C13-select-stale-fd.patch (M)
+LEGACY = (" L" if os.environ.get("VERIF_C13_LEGACY") else "") + (" M" if os.environ.get("VERIF_C13_LEGACY_SEL") else "")
 
 
-def head(hints, pool, kinds):
-    return ["cfg %d %d%s" % (hints, pool, LEGACY)] + ["fd %s" % k for k in kinds]
+def head(hints, pool, kinds, closefd=False):
+    """closefd: the close callback closes the descriptor (muggle_ev_ctx_close), as the
+    library's own socket layer does"""
+    return ["cfg %d %d%s%s" % (hints, pool, LEGACY, " C" if closefd else "")] + ["fd %s" % k for k in kinds]
 
 
 def gen_exhaustive(ctx):
@@ -70,7 +74,7 @@ def gen_exhaustive(ctx):
         for b0, b1 in itertools.product(batches, repeat=2):
             for ri, re in enumerate(reactions):
                 pre = "pre a:0 a:1" if ri != 3 and ri != 4 else ("pre a:0" if ri == 3 else "pre a:1")
-                ops = head(2, (len(cases) % 2), [k0, k1]) + [pre, "on idle 0 " + b0, "on idle 1 " + b1]
+                ops = head(2, (len(cases) % 2), [k0, k1], len(cases) % 4 >= 2) + [pre, "on idle 0 " + b0, "on idle 1 " + b1]
                 ops += re
                 cases.append(ops + tail("-"))
     return cases
@@ -97,7 +101,7 @@ def gen_class_p(ctx, rng, nd_max):
     nd = rng.randrange(1, nd_max + 1)
     kinds = [rng.choice(KINDS) for _ in range(nd)]
     hints = rng.choice([nd, nd, nd + 1, 16])
-    ops = head(hints, rng.randrange(2), kinds)
+    ops = head(hints, rng.randrange(2), kinds, rng.random() < 0.5)
     pre = []
     for d in range(nd):
         if rng.random() < 0.85:
@@ -120,7 +124,12 @@ def gen_class_q(ctx, rng, nd_max):
     nd = rng.randrange(1, nd_max + 1)
     kinds = [rng.choice(KINDS) for _ in range(nd)]
     hints = rng.choice([nd, nd, nd + 2, 16])
-    ops = head(hints, rng.randrange(2), kinds)
+    ops = head(hints, rng.randrange(2), kinds, rng.random() < 0.6)
+    # tag R: a context is added and shut down in the same callback. Whether bytes already queued
+    # for it are still offered, and whether it is closed or cleared when the loop exits in that
+    # round, legitimately depends on the scan order: life-cycle and no-EBADF are judged, agreement
+    # is not
+    tag = "Q"
     later = [d for d in range(nd) if rng.random() < 0.3]
     pre = ["a:%d" % d for d in range(nd) if d not in later]
     rng.shuffle(pre)
@@ -134,7 +143,11 @@ def gen_class_q(ctx, rng, nd_max):
             if r < 0.35 and kinds[c] != "pipe":
                 acts.append("s:%d" % c)
             elif r < 0.6 and later:
-                acts.append("a:%d" % rng.choice(later))
+                d = rng.choice(later)
+                acts.append("a:%d" % d)
+                if kinds[d] != "pipe" and rng.random() < 0.4:     # added and closed in the same round
+                    acts.append("s:%d" % d)
+                    tag = "R"
             elif r < 0.7:
                 acts.append("x")
             elif r < 0.8:
@@ -145,13 +158,20 @@ def gen_class_q(ctx, rng, nd_max):
         if rng.random() < 0.25:
             a = "a:%d" % rng.choice(later) if later and rng.random() < 0.7 else rng.choice(["u", "x"])
             ops.append("on cl %d %s" % (c, a))
+    if later and rng.random() < 0.35:       # hand-over through the wake callback, possibly closed at once
+        d = rng.choice(later)
+        shut = kinds[d] != "pipe" and rng.random() < 0.5
+        if shut:
+            tag = "R"
+        ops.append("on wk 0 a:%d%s" % (d, " s:%d" % d if shut else ""))
+        ops.append("on idle 0 u")
     nidle = rng.choice([1, 2, 4, 8])
     for k in range(nidle):
         acts = [a for a in rand_peer_batch(rng, nd) if a != "u"]
         if rng.random() < 0.1:
             acts.append("X")
         ops.append("on idle %d %s" % (k, " ".join(acts)))
-    return ops + tail("Q")
+    return ops + tail(tag)
 
 
 def rand_act(rng, nd):
@@ -166,7 +186,7 @@ def gen_general(ctx, rng, nd_max):
     nd = rng.randrange(1, nd_max + 1)
     kinds = [rng.choice(KINDS) for _ in range(nd)]
     hints = rng.choice([0, 1, 1, 2, 4, nd, 16])
-    ops = head(hints, rng.randrange(2), kinds)
+    ops = head(hints, rng.randrange(2), kinds, rng.random() < 0.5)
     for d in range(nd):
         if rng.random() < 0.3:
             ops.append("rm %d %d" % (d, rng.choice([1, 1, 2, 3, 8, 300])))
@@ -278,6 +298,8 @@ def lifecycle_violation(trace, level=True):
             return "loop sleeps while a registered context has pending input"
         elif t == "W" and cleared:
             return "cb_wake after clear phase"
+        elif t == "ERR":
+            return "the wait call failed (EBADF): the loop gives up on its own"
         elif t.startswith("!") or t == "F":
             return "harness anomaly %s" % t
     if not exited:
@@ -294,7 +316,7 @@ def judge(ops, out):
         if o.startswith("run ") and " ; " in l:
             # clause 2 holds unconditionally for the level-triggered back-ends; for epoll only
             # when the read callbacks drain and the batch is not truncated (classes P, Q)
-            lvl = o != "run epoll" or ops[-1] in ("agree P", "agree Q")
+            lvl = o != "run epoll" or ops[-1] in ("agree P", "agree Q", "agree R")
             v = lifecycle_violation(l.split(" ; ")[0], lvl)
             if v:
                 return "%s: %s" % (o, v)
